@@ -328,12 +328,24 @@ func (n *Node[T]) Verify(ctx context.Context, parent Block, block Block) error {
 		return err
 	}
 
+	validityWindow := n.ruleFactory.GetRules(block.Timestamp).GetValidityWindow()
 	for _, chunkCert := range block.ChunkCerts {
 		if err := chunkCert.Verify(
 			ctx,
 			n.chainState,
 		); err != nil {
 			return fmt.Errorf("%w %s: %w", ErrInvalidWarpSignature, chunkCert.ChunkID, err)
+		}
+		// A chunk may only be referenced while the block timestamp is within its
+		// validity window: replay protection stops tracking a chunk once it expired
+		// and does not look further back than the validity window.
+		if err := validitywindow.VerifyTimestamp(
+			chunkCert.Expiry,
+			block.Timestamp,
+			validityWindowTimestampDivisor,
+			validityWindow,
+		); err != nil {
+			return fmt.Errorf("%w %s: %w", ErrInvalidChunkCertificate, chunkCert.ChunkID, err)
 		}
 	}
 
